@@ -9,9 +9,15 @@ package pfcpiface
 
 import (
 	"bytes"
+	"context"
 	"encoding/json"
 	"fmt"
+	pb "github.com/omec-project/upf-epc/pfcpiface/bess_pb"
+	"google.golang.org/grpc/connectivity"
+	"google.golang.org/grpc/credentials/insecure"
+	"net"
 	"os"
+	"path/filepath"
 	"strings"
 	"testing"
 	"time"
@@ -530,6 +536,9 @@ func c12Features(res *vResult) {
 			only, _ = m["seq"].(string)
 		}
 	}
+	if only == "" || strings.ContainsAny(only, "AT") {
+		c12RealChannel(res)
+	}
 	for _, down := range []bool{false, true} {
 		for _, p4 := range []bool{false, true} {
 			for cfgi := 0; cfgi < 8; cfgi++ {
@@ -550,6 +559,94 @@ func c12Features(res *vResult) {
 					c12FeatureSeq(res, cfg, sq)
 				}
 			}
+		}
+	}
+}
+
+// c12RealChannel: the connectivity gate on the real gRPC channel of the BESS plug-in. A private gRPC front end is stopped
+// and restarted; every Association Setup must be accepted exactly when the channel is READY at that moment (a channel
+// that lost its server sits in IDLE / TRANSIENT_FAILURE / CONNECTING). Waiting for the channel to leave or reach READY
+// is a wait for a condition, not an oracle: if it does not happen within 20 s the check ends as infrastructure error.
+func c12RealChannel(res *vResult) {
+	dir := filepath.Join(vScratchDir(), fmt.Sprintf("c12-p%d", os.Getpid()))
+	os.MkdirAll(dir, 0o755)
+	sock := filepath.Join(dir, "bess-real.sock")
+	fb := newFakeBESS()
+	var g *grpc.Server
+	start := func() {
+		os.Remove(sock)
+		lis, err := net.Listen("unix", sock)
+		if err != nil {
+			panic("VERIF-INFRA: " + err.Error())
+		}
+		g = grpc.NewServer()
+		srv := &fbServer{}
+		srv.attach(fb)
+		pb.RegisterBESSControlServer(g, srv)
+		go g.Serve(lis)
+	}
+	waitFor := func(conn *grpc.ClientConn, ready bool) {
+		ctx, cancel := context.WithTimeout(context.Background(), 20*time.Second)
+		defer cancel()
+		for (conn.GetState() == connectivity.Ready) != ready {
+			if ready {
+				conn.Connect()
+			}
+			if !conn.WaitForStateChange(ctx, conn.GetState()) {
+				panic(fmt.Sprintf("VERIF-INFRA: C12 real channel did not become ready=%v within 20 s (state %v)", ready, conn.GetState()))
+			}
+		}
+	}
+	for _, sq := range []string{"A", "TA", "ATA", "TTA", "ATTA", "TATA", "ATATA"} {
+		start()
+		in := newVInst(vCfg{NConns: 1})
+		conn, err := grpc.NewClient("unix://"+sock, grpc.WithTransportCredentials(insecure.NewCredentials()), grpc.WithIdleTimeout(0))
+		if err != nil {
+			panic("VERIF-INFRA: " + err.Error())
+		}
+		waitFor(conn, true)
+		old := in.bs.conn
+		in.bs.conn = conn
+		up := true
+		cs := schedCase{Scenario: map[string]any{"mode": "features", "real_channel": true, "seq": sq}}
+		for i, op := range sq {
+			if op == 'T' {
+				if up {
+					g.Stop()
+					waitFor(conn, false)
+				} else {
+					start()
+					waitFor(conn, true)
+				}
+				up = !up
+				continue
+			}
+			out, fr, msg := in.inject(0, (&sReq{Kind: kAssoc, Seq: uint32(5 + i)}).build(in.conns[0]).marshal())
+			res.Evaluations++
+			res.Distinct++
+			if fr != "" {
+				res.finding("c12:panic:"+fr, msg, cs)
+				break
+			}
+			if len(out) != 1 {
+				res.finding("c12:features-no-response", fmt.Sprintf("%d responses (real channel, sequence %s, step %d)", len(out), sq, i), cs)
+				break
+			}
+			d, err := vDecode(out[0])
+			if err != nil || d.Type != message.MsgTypeAssociationSetupResponse {
+				res.finding("c12:features-bad-response", "not an Association Setup Response", cs)
+				break
+			}
+			if accepted := d.Cause == ie.CauseRequestAccepted; accepted != up {
+				res.finding("c12:connectivity-gate:real-channel", fmt.Sprintf("the BESS gRPC server is up=%v (channel state %v) but the Association Setup was answered with cause %d (sequence %s, step %d; T = the server stops / starts again)", up, conn.GetState(), d.Cause, sq, i), cs)
+				break
+			}
+		}
+		in.bs.conn = old
+		conn.Close()
+		in.close()
+		if up {
+			g.Stop()
 		}
 	}
 }
